@@ -279,6 +279,42 @@ def t_limits(ctx):
              '256 opcodes x 6 positions' if ctx.shard == 0 else None)
 
 
+# ---- (iv-b) pay-to-script-hash grid
+P2SH_REDEEMS = ['', '51', '00', '75', '6d', '7551', '7500', '74', '7451', '61', '6a', '51 75'.replace(' ', ''), '76', '7675', '767575', '82',
+                '87', '5187', '0087', '9c', '519c', '69', '5169', '0069', '63 51 68'.replace(' ', ''), '63', '68', '51 63 51 67 00 68'.replace(' ', ''),
+                '6b', '6b6c', '6c', '4c', '4c01', '0151', '020001', '4e00000000', '05ab', 'ac', '00ac', 'ae', '0000ae', '000051ae', 'b1', 'b0',
+                '50', '65', 'ba', 'ff', '7e', '00 7e'.replace(' ', ''), 'a914' + '00' * 20 + '87', '51' * 3, '00' * 2, '7c', '517c', 'a9', '51a9',
+                '5175', '0075', '515175', '51 51 51 6d 75'.replace(' ', '')]
+P2SH_PREFIXES = ['', '51', '00', '5151', '0000', '0151', '4c0151', '61', '51 61'.replace(' ', ''), '7551', '4f', '60', '0180', '020000', '50']
+
+
+def p2sh_cases():
+    for red in P2SH_REDEEMS:
+        rb = bytes.fromhex(red)
+        good = b'\xa9\x14' + H.h160(rb) + b'\x87'
+        for pre in P2SH_PREFIXES:
+            for enc in (S.push_enc(rb), b'\x4c' + bytes([len(rb)]) + rb):
+                ssig = bytes.fromhex(pre) + enc
+                for tag, spk in (('good', good), ('wrong-hash', b'\xa9\x14' + H.h160(rb + b'x') + b'\x87'),
+                                 ('24-bytes', good + b'\x61'), ('equalverify', good[:-1] + b'\x88'), ('push21', b'\xa9\x15' + H.h160(rb) + b'\x00\x87')):
+                    if tag != 'good' and (enc[0] == 0x4c or pre not in ('', '51', '61')):
+                        continue
+                    for fl in FLAG_SUBSETS:
+                        yield {'kind': 'verify', 'ssig': ssig.hex(), 'spk': spk.hex(), 'flags': fl, 'tag': 'p2sh-' + tag}
+
+
+def t_p2sh(ctx):
+    """every (redeem script from a 60-script catalogue) x (scriptSig prefix, push-only or not) x (push encoding) x flag subset
+    against a pay-to-script-hash scriptPubKey and four look-alikes that are NOT P2SH: which of the inner script's outcomes
+    (empty stack, false, true, error, extra items under CLEANSTACK) decides, and only when the P2SH flag is set"""
+    agg = {'n': 0, 'nt': 0, 'cls': {}, 'sample': None}
+    for c in ctx.my(p2sh_cases()):
+        _direct(ctx, c, agg)
+    ctx.bulk(agg['n'], agg['nt'], agg['cls'], agg['sample'],
+             '%d redeem scripts x %d scriptSig prefixes x 2 push encodings x all %d flag subsets (P2SH grid + 4 look-alike scriptPubKeys)' % (
+                 len(P2SH_REDEEMS), len(P2SH_PREFIXES), len(FLAG_SUBSETS)) if ctx.shard == 0 else None)
+
+
 # ---- (ii) stack-aware grammar
 NUMS = [b'', b'\x80', b'\x01', b'\x81', b'\x02', b'\x03', b'\x05', b'\x7f', b'\xff', b'\x00\x01', b'\x80\x00', b'\xff\xff\xff\x7f',
         b'\xff\xff\xff\xff', b'\x00\x00\x00\x80\x00', b'\x01\x00', b'\x00', b'\x00\x80', b'\x10', b'\x14', b'\xe8\x03']
@@ -605,5 +641,5 @@ def coverage_gaps(classes, tier):
     return gaps
 
 
-TASKS = [('exhaustive', (t_exhaustive, 16)), ('limits', (t_limits, 8)), ('grammar', (t_grammar, 12)), ('signed', (t_signed, 16)),
+TASKS = [('exhaustive', (t_exhaustive, 16)), ('limits', (t_limits, 8)), ('p2sh', (t_p2sh, 8)), ('grammar', (t_grammar, 12)), ('signed', (t_signed, 16)),
          ('mutvec', (t_mutvec, 8)), ('fuzz', (t_fuzz, lambda tier: 2 if tier == 'quick' else 8))]
